@@ -22,10 +22,39 @@ package state
 //@ ghost $nsaved Int
 //@ ghost $deleted (Str) Bool
 
+//   $nonce[c]   nonce of client c as stored in state
+//@ ghost $nonce (Str) Int
+
+// GetClientState returns a private copy of the client's state; a client unknown to the state has
+// balance 0 and nonce 0 (util.ErrValueNotPresent, with a usable empty state).
+//@ iface 0chain.net/chaincore/chain/state.StateContextI.GetClientState
+//@   params self clientID
+//@   pure
+//@   ensures result1 == nil || result1 == util.ErrValueNotPresent ==> result0 != nil && fresh(result0) && result0.Balance == $bal[clientID] && result0.Nonce == $nonce[clientID]
+//@   ensures result1 == util.ErrValueNotPresent ==> $bal[clientID] == 0 && $nonce[clientID] == 0
+//@   ensures $nonce[clientID] >= 0
+
+//@ iface 0chain.net/chaincore/chain/state.StateContextI.SetClientState
+//@   params self clientID s
+//@   modifies $bal, $nonce
+//@   ensures result1 == nil ==> $bal[clientID] == s.Balance && $nonce[clientID] == s.Nonce
+//@   ensures result1 == nil ==> forall k string :: k != clientID ==> $bal[k] == old($bal[k]) && $nonce[k] == old($nonce[k])
+//@   ensures result1 != nil ==> forall k string :: $bal[k] == old($bal[k]) && $nonce[k] == old($nonce[k])
+
+// SetStateContext stamps the state with the current round and transaction hash only.
+//@ iface 0chain.net/chaincore/chain/state.StateContextI.SetStateContext
+//@   params self st
+//@   modifies st.TxnHash, st.TxnHashBytes, st.Round
+
+//@ iface 0chain.net/chaincore/chain/state.StateContextI.GetMissingNodeKeys
+//@   params self
+//@   pure
+
 //@ iface 0chain.net/chaincore/chain/state.StateContextI.GetClientBalance
 //@   params self clientID
 //@   pure
 //@   ensures result1 == nil ==> result0 == $bal[clientID]
+//@   ensures result1 == util.ErrValueNotPresent ==> result0 == 0 && $bal[clientID] == 0
 //@   ensures result0 >= 0
 
 //@ iface 0chain.net/chaincore/chain/state.StateContextI.AddTransfer
